@@ -52,6 +52,13 @@ def check(pid, tier, seed):
     nshards = int(os.environ.get("VF_SHARDS", "0")) or min(16, os.cpu_count() or 4)
     nshards = min(nshards, getattr(mod, "MAX_SHARDS", 16))
     budget = float(os.environ.get("VF_BUDGET", "0")) or float(mod.BUDGET[tier])
+    if not os.environ.get("VF_BUDGET"):
+        # the budgets were measured on an idle 16-core machine; on a loaded one the same work takes longer, and a
+        # truncated run can only end INCONCLUSIVE, so stretch the budget by the load seen at start (at most 4x)
+        try:
+            budget *= max(1.0, min(4.0, os.getloadavg()[0] / float(os.cpu_count() or 1)))
+        except OSError:
+            pass
     hard = budget * 4 + 120
     tmp = tempfile.mkdtemp(prefix="vf-%s-" % pid)
     env = child_env(pid, tier, seed)
